@@ -27,7 +27,7 @@ SEQ_BASE = dict(AeadC="1", Starts='"boundary"', Menu='"none"', BnKind='"leaf"', 
 
 SETUP_BASE = dict(KemSet="{32}", KdfSet="{1}", AeadSet="{1, 65535}", ModeSet="{0, 1, 2, 3}", Vals='"small"',
                   Perturb='{"none", "info", "psk", "pskid", "mode", "kdf", "aead", "skr", "enc", "pks", "shift"}',
-                  Impost="FALSE", Shape='"all"', Emit="FALSE", Ordered="TRUE", MaxSeals="0", MaxOpens="0", MaxExports="0", MaxShots="0",
+                  Impost="FALSE", Twin="FALSE", BadPkR="FALSE", Shape='"all"', Emit="FALSE", Ordered="TRUE", MaxSeals="0", MaxOpens="0", MaxExports="0", MaxShots="0",
                   RecordHist="FALSE", HistLen="0", FormMenu='{"alloc"}', OvfFirstInOpen="TRUE")
 
 
@@ -295,3 +295,162 @@ def c02(chk, tier):
                        "every returned byte must equal the oracle's evaluation of the specification's term; "
                        "distinct = distinct (suite, mode, call, form, context, outcome, arguments)")
     chk.cov["exhaustive"] = True
+
+
+def rot(seq, k):
+    """seed-rotated choice, so that successive seeds sweep the whole range"""
+    return seq[(seed() + k) % len(seq)]
+
+
+def kset(xs):
+    return "{" + ", ".join(str(x) for x in xs) + "}"
+
+
+def qset(xs):
+    return "{" + ", ".join('"%s"' % x for x in xs) + "}"
+
+
+def tr_key(tag):
+    def key(last, tr):
+        su, mo = suite_of(tr)
+        return (tag, su, mo, last["op"], last.get("form"), last.get("c"), last["kind"], last.get("err"),
+                json.dumps(last.get("plain"), sort_keys=True), json.dumps(_origin_sig(tr), sort_keys=True))
+    return key
+
+
+def _origin_sig(tr):
+    """what distinguishes the (sender, receiver) parameter pair of a transition: the receiver's setup arguments"""
+    made = tr.get("made") if isinstance(tr.get("made"), dict) else {}
+    sig = {}
+    for c in ("r", "i", "t"):
+        if made.get(c):
+            st = made[c][0]
+            sig[c] = [st["plain"], st["bytes"]]
+    return sig
+
+
+# ------------------------------------------------------------------------------------------- C01
+@prop("C01")
+def c01(chk, tier):
+    thorough = tier == "thorough"
+    chk.assumptions += [
+        "pattern mode: no byte is compared with the oracle; predicted result kinds, returned plaintexts (the driver's "
+        "own leaves), ciphertext / tag lengths and the equality pattern of all outputs are compared, so a change "
+        "applied symmetrically to both roles leaves C01 green (that is C02) while any asymmetry turns it red",
+        "quick tier samples one KDF per KEM (rotating with VERIF_SEED); thorough covers all 36 sealing suites"]
+    model_check(chk, "MC_Setup", "MC_Setup.cfg", "mc_roundtrip",
+                setup_over(KemSet=kset(KEMS), KdfSet="{1, 2, 3}", AeadSet="{1, 2, 3}", Vals='"leaf"', Shape='"one"',
+                           Perturb='{"none"}', MaxSeals=2, MaxOpens=2, FormMenu='{"alloc", "detached"}'),
+                invariants=["Binding", "CtLen", "AcceptsOnlySealed", "RcvdInOrder"], properties=[])
+    ses = Session(chk)
+    try:
+        for i, kem in enumerate(KEMS):
+            kdfs = [1, 2, 3] if thorough else [rot([1, 2, 3], i)]
+            setup_transitions(chk, ses, "gen_rt_%d" % kem,
+                              setup_over(KemSet="{%d}" % kem, KdfSet=kset(kdfs), AeadSet="{1, 2, 3}",
+                                         Vals='"leaf"', Shape='"all"' if thorough else '"one"', Perturb='{"none"}',
+                                         Emit=True, MaxSeals=3, MaxOpens=3, FormMenu='{"alloc", "detached"}'),
+                              casekey=tr_key("c01"))
+        # message sizes straddling the AEAD block sizes, raw contexts, in-order delivery only
+        for aead in (1, 2, 3):
+            for lv in (range(8) if thorough else (rot(list(range(8)), aead),)):
+                batch = TransitionBatch(ses, label="sizes aead=%d lenvar=%d" % (aead, lv))
+
+                def on(tr, batch=batch, aead=aead, lv=lv):
+                    l = tr["last"]
+                    batch.add(tr)
+                    chk.case(("sz", aead, lv, l["op"], l["form"], l["kind"], json.dumps(l.get("plain"), sort_keys=True),
+                              tuple(l["pre"]["seq"])))
+                generate(chk, "MC_Seq", "MC_Seq.cfg", "gen_sizes_%d_%d" % (aead, lv),
+                         seq_over(AeadC=aead, Starts='"zero"', Menu='"inorder"', Emit=True, MaxSeals=4, MaxOpens=4, LenVar=lv),
+                         invariants=[], on_value=on, workers=4)
+                batch.run()
+    finally:
+        ses.close()
+    chk.cov["rule"] = ("every transition of the matching-pair setup model (suite x mode x both forms on both sides, <= 3 "
+                       "messages delivered in and out of order) plus in-order sessions over plaintext/aad sizes "
+                       "0,1,15,16,17,32,33,64; distinct = distinct (suite, mode, call, form, outcome, arguments)")
+
+
+# ------------------------------------------------------------------------------------------- C07
+C07_KINDS = ["none", "info", "psk", "pskid", "mode", "kdf", "aead", "skr", "enc", "pks", "shift"]
+C07_BYTE_KINDS = ["none", "infobits", "pskbits", "pskidbits", "ext"]
+
+
+@prop("C07")
+def c07(chk, tier):
+    thorough = tier == "thorough"
+    chk.assumptions += [
+        "spec level: HKDF, DH and the AEADs are a free term algebra (collision-free on the explored inputs); TLC "
+        "searches the DESIGN for collisions between any two parameter tuples that differ in one component",
+        "code level (pattern mode): the perturbed receiver must fail to open the sender's ciphertexts and every export "
+        "of >= 16 bytes must differ between the two sides, while the unperturbed control receiver of the same model "
+        "opens and agrees; no absolute byte is compared"]
+    # the design: concrete strings over {00, 61} so that boundary shifts / empty-vs-zero collisions are searched
+    model_check(chk, "MC_Setup", "MC_Setup.cfg", "mc_binding",
+                setup_over(KemSet="{32, 16}" if not thorough else kset(KEMS), KdfSet="{1}" if not thorough else "{1, 3}",
+                           AeadSet="{1, 3, 65535}", Vals='"small"', Perturb=qset(C07_KINDS), Shape='"all"'),
+                invariants=["Binding", "AuthSound", "PskSound"], properties=[], workers=NCPU, timeout=3600)
+    ses = Session(chk)
+    try:
+        want = lambda last, tr: last["op"] in ("setup_r", "open", "export")
+        for i, kem in enumerate(KEMS if thorough else (32, rot([16, 17, 18], 0))):
+            setup_transitions(chk, ses, "gen_bind_%d" % kem,
+                              setup_over(KemSet="{%d}" % kem, KdfSet=kset([rot([1, 2, 3], i)]), AeadSet="{1, 3}",
+                                         Vals='"small"', Shape='"all"' if thorough else '"one"', Perturb=qset(C07_KINDS),
+                                         Emit=True, MaxSeals=2 if thorough else 1, MaxOpens=2 if thorough else 1,
+                                         MaxExports=2 if thorough else 1),
+                              want=want, casekey=tr_key("c07"))
+            # byte level: every bit of 32/65-byte info / psk / psk_id, appended and prepended zero bytes
+            setup_transitions(chk, ses, "gen_bits_%d" % kem,
+                              setup_over(KemSet="{%d}" % kem, KdfSet=kset([rot([1, 2, 3], i + 1)]), AeadSet="{2}",
+                                         ModeSet="{0, 3}" if not thorough else "{0, 1, 2, 3}",
+                                         Vals='"leaf"', Shape='"one"', Perturb=qset(C07_BYTE_KINDS),
+                                         Emit=True, MaxSeals=1, MaxOpens=1, MaxExports=1),
+                              want=want, casekey=tr_key("c07b"))
+    finally:
+        ses.close()
+    chk.cov["rule"] = ("sender x receiver pairs where the receiver differs in exactly one component (other info / psk / psk_id "
+                       "value, other mode with the same PSK data, other KDF, other AEAD, other recipient key, other "
+                       "encapsulated key, other expected sender key, bytes moved between info and psk_id, every single bit "
+                       "of info / psk / psk_id, appended / prepended zero byte); distinct = distinct (suite, mode, receiver "
+                       "arguments, call, outcome)")
+
+
+# ------------------------------------------------------------------------------------------- C08
+@prop("C08")
+def c08(chk, tier):
+    thorough = tier == "thorough"
+    chk.assumptions += [
+        "spec level: free term algebra with DH(a, PK(b)) = DH(b, PK(a)) as the only law",
+        "code level (pattern mode): the receiver that expects pkS is handed the encapsulated key of an impostor "
+        "(other identity pair; honest pkS paired with a foreign private key; non-authenticated mode; wrong PSK): it must "
+        "reject the impostor's ciphertexts and export different secrets, while it opens the honest sender's messages"]
+    model_check(chk, "MC_Setup", "MC_Setup.cfg", "mc_auth",
+                setup_over(KemSet=kset(KEMS), KdfSet="{1}", AeadSet="{1}", ModeSet="{1, 2, 3}", Vals='"small"',
+                           Shape='"one"', Perturb='{"none", "pks", "psk"}', Impost=True),
+                invariants=["Binding", "AuthSound", "PskSound"], properties=[])
+    ses = Session(chk)
+    try:
+        want = lambda last, tr: last["op"] in ("setup_s", "setup_r", "open", "export")
+        for i, kem in enumerate(KEMS):
+            # impostor senders against the receiver that expects the honest identity / PSK
+            setup_transitions(chk, ses, "gen_auth_%d" % kem,
+                              setup_over(KemSet="{%d}" % kem, KdfSet=kset([rot([1, 2, 3], i)]),
+                                         AeadSet=kset([rot([1, 2, 3], i + 1)]), ModeSet="{1, 2, 3}",
+                                         Vals='"leaf"', Shape='"one"', Perturb='{"none"}',
+                                         Impost=True, Emit=True, MaxSeals=2, MaxOpens=2, MaxExports=1),
+                              want=want, casekey=tr_key("c08"))
+            # receivers that expect another identity key / hold another PSK (every single PSK bit)
+            setup_transitions(chk, ses, "gen_psk_%d" % kem,
+                              setup_over(KemSet="{%d}" % kem, KdfSet=kset([rot([1, 2, 3], i + 1)]),
+                                         AeadSet=kset([rot([1, 2, 3], i)]), ModeSet="{1, 2, 3}",
+                                         Vals='"leaf"', Shape='"one"',
+                                         Perturb='{"none", "pks", "psk", "pskbits"}' if thorough or kem == rot(list(KEMS), 0) else '{"none", "pks", "psk"}',
+                                         Emit=True, MaxSeals=1, MaxOpens=1, MaxExports=1),
+                              want=want, casekey=tr_key("c08p"))
+    finally:
+        ses.close()
+    chk.cov["rule"] = ("4 KEMs x {Psk, Auth, AuthPsk}: honest sender, impostors (foreign key pair, public half only, "
+                       "non-authenticated mode, wrong PSK incl. every single PSK bit) against a receiver expecting pkS / the "
+                       "PSK; distinct = distinct (suite, mode, impostor and receiver arguments, call, outcome)")
